@@ -40,8 +40,9 @@ def run_one(patch, args):
             p = subprocess.run(cmd, env=env, capture_output=True, text=True, cwd=VERIF)
             viol = [l for l in p.stdout.split('\n') if l.startswith('VIOLATION')]
             sig = [l.strip() for l in p.stdout.split('\n') if 'signature=' in l]
+            nruns = sum(int(s.split(' runs=')[1].split()[0]) for s in sig if ' runs=' in s)
             res['results'][prop] = {'exit': p.returncode, 'caught': p.returncode == 1 and bool(viol), 'wall_s': round(time.time() - t, 1),
-                                    'signatures': [s.split('signature=')[1].split()[0] for s in sig][:4]}
+                                    'signatures': [s.split('signature=')[1].split()[0] for s in sig][:4], 'violating_runs': nruns}
             # the first replay file must reproduce the violation in a fresh process against the changed tree and must
             # NOT report anything against /repo itself (a minimised scenario that fails on the good tree would be a false alarm)
             if viol:
@@ -78,7 +79,7 @@ def main():
     for p in patches:
         r = run_one(p, a)
         allres.append(r)
-        line = r['mutant'] + ': ' + (r.get('error') or ', '.join('%s=%s(%ss)%s' % (k, 'CAUGHT' if v['caught'] else 'MISSED exit=%d' % v['exit'], v['wall_s'], v['signatures'][:2]) for k, v in r['results'].items()))
+        line = r['mutant'] + ': ' + (r.get('error') or ', '.join('%s=%s(%ss, %d runs%s)%s' % (k, 'CAUGHT' if v['caught'] else 'MISSED exit=%d' % v['exit'], v['wall_s'], v.get('violating_runs', 0), ', FRAGILE' if v['caught'] and v.get('violating_runs', 0) <= 2 else '', v['signatures'][:2]) for k, v in r['results'].items()))
         print(line, flush=True)
         missed += sum(1 for v in r['results'].values() if not v['caught']) + (1 if r.get('error') else 0)
     with open(a.out, 'w') as f:
